@@ -182,6 +182,28 @@ CHECKS = {
         note="L2 seam; bit-identity on this machine's BLAS with single-threaded numerics; quick tier does not shrink.",
         ref="DESIGN.md section 3 C13",
     ),
+
+    "C17": dict(
+        technique="Hypothesis PBT; round trip through the command-line loader + independent jsonschema validation + differential design run",
+        text="Generated configurations of all six geometry methods (RowWise with/without perimeter ratio), four pipe "
+             "arrangements, five fluids, optional cap/continue flag: the written file validates (tool's verdict and an "
+             "independent section-by-section jsonschema pass), reloading it through _run_manager_from_cli_worker and writing "
+             "again gives the same document (numbers to 1e-9), and the API-built and file-loaded managers give bit-identical "
+             "designs (L2 seam).",
+        note="find_design / prepare_results / write_output_files are stubbed in the check process to capture the loaded manager; "
+             "configurations the API itself rejects with ValueError are counted, not judged.",
+        ref="DESIGN.md section 3 C17",
+    ),
+    "C18": dict(
+        technique="systematic single-field corruption of valid documents (fault enumeration over every schema field x operator x CLI shape) with an independent jsonschema verdict; exit status via CliRunner and real subprocesses",
+        text="Demo files and API-written files for every method; every (section, field) x {delete key/section, wrong type, "
+             "below min, above max, bad enum, short/bad array, letter-case variants, optional fields}: validate_input_file "
+             "accepts iff an independent section-by-section validation does; the CLI exits non-zero whenever the document is "
+             "invalid, no output directory is given or the conversion is unsupported / impossible, and zero only for "
+             "--validate-only on valid files or when the six outputs exist. Thorough tier enumerates all combinations.",
+        note="Full runs use the L2 seam (in-process and in the subprocess wrapper); base documents depend on VERIF_SEED only.",
+        ref="DESIGN.md section 3 C18",
+    ),
 }
 
 NOT_YET = {}
